@@ -50,10 +50,10 @@ CLAIMED = {
    "Coq kernel; extraction + driver; translator; CPython's rendering of datetime/timedelta/float/tzname and callable attributes enters the model as strings (modelled not verified); 'never raises' for the callable kinds is exhaustive testing of a finite table", T_TIE),
  "C14": ("3.5, 5 (C14)",
    "Props/C14.v over the micro-operation model (Model/Conc.v): a concurrent execution is an arbitrary list of the atomic actions the code's locks define, so the theorems hold for all interleavings of any number of threads: the shared state stays well formed and no micro-operation fails with an internal error; an id that left the job set is never resurrected; every exec_jobs batch is duplicate free and consists of jobs registered when their priority was read; a job outside the job set when a call starts is never chosen by it. 'Never beyond its attempt budget' is REFUTED for overlapping exec_jobs calls (known finding, replayed on the implementation). Tied by deterministic thread scheduling of the REAL code (line-level switches, cooperative RLock/Thread/Queue shims): the atomic actions logged in execution order are replayed on the extracted model and results, the job set and the final job states must agree; 2-4 caller threads x 1-3 operations of all kinds.",
-   "Coq kernel; extraction + driver; DST harness (cooperative shims replace OS preemption/GIL: partial); atomicity of single set operations assumed", T_SEQ),
+   "Coq kernel; extraction + driver; DST harness (cooperative shims replace OS preemption/GIL: partial); atomicity of single set operations assumed; the sequential meaning of every registry operation, of the selection and of the post-run loop is regenerated from the source and tied (with-lock blocks are sequential there: the interleavings are the micro-operation model's)", T_TIE),
  "C15": ("3.5, 5 (C15)",
    "Props/C15.v: with one worker, for arbitrary callback programs (query, schedule, delete others, delete itself, clear) exec_jobs returns normally, invokes and reschedules its whole batch, keeps the state good; the batch is fixed before any callback runs (jobs scheduled from callbacks are not run in the same call); deleted ids never return; a single running thread can always acquire the locks it asks for. For several workers the no-deadlock claim is REFUTED (lock-order inversion when a callback prints the scheduler while another uses it): known finding with a Coq witness and a DST witness on the implementation. Tied by the sequential re-entrant stream and by DST runs with n_threads in {1,2,0} and callback programs.",
-   "as C14; deadlock = no enabled thread under the cooperative scheduler", T_SEQ),
+   "as C14; deadlock = no enabled thread under the cooperative scheduler", T_TIE),
  "C16": ("3.5, 5 (C16)",
    "Props/C16.v over the worker-pool model: for every worker count and every interleaving of the workers each selected job is in exactly one of queue/running/done, at most m run at once, no job twice or overlapping itself, and when all workers have exited every job has been run exactly once; with n_threads=0 all can overlap; the resulting attempts/failures do not depend on the order (= sequential execution). Tied by DST runs of the real code with n_threads in {0,1,2,3,5} against batches of 0-6 jobs: callbacks logged start/finish, maximum overlap, completion before return, final state vs the model.",
    "as C14; true simultaneity is runtime (observed under cooperative scheduling); the queue/worker hand-over of __exec_jobs and _exec_job_worker are recognised by exact source templates whose meaning is the worker-pool model (any edit there is reported as a lost tie)", T_TIE),
